@@ -872,3 +872,27 @@ def rule_header_tables_agree(res, rid, m):
             arg_ok = (PKT + "::" + g) in called_names(c["args"][0])
         res.check(ok and arg_ok, rid, "header-pair:%s" % s[3:], w.loc, "writer stores Packet::%s() with %s; reader takes %s" % (g, s, g),
                   "field %s does not pair up between raw header writer and packet constructor" % s[3:])
+
+
+def rule_header_fully_stamped(res, rid, m):
+    """C08-R6: wherever a packet's raw message header is written into a frame, the
+    segment type and the payload length of that header are set afterwards on every path
+    (the packet's own flags may carry stale segment bits, e.g. after reassembly)."""
+    f = m.header_writer
+    n = 0
+    for p in paths.enumerate_paths(f):
+        els = [x for _, x in p.elems()]
+        raws = [i for i, x in enumerate(els) if x.get("k") == "call" and callee_name(x) == PKT + "::getRawMessageHeader"]
+        if not raws:
+            continue
+        n += 1
+        after = els[raws[-1] + 1:]
+        for setter, what in ((MH + "::setSegmentType", "segment type"), (MH + "::setPayloadLength", "payload length")):
+            ok = any(x.get("k") == "call" and callee_name(x) == setter for x in after)
+            res.check(ok, rid, "header-writer:%s" % what.replace(" ", "-"), els[raws[-1]].get("loc"),
+                      "%s is set after the raw header copy on every path" % what,
+                      "on some path the %s of a written message header is left as copied from the packet (its common flags may still carry the "
+                      "segment bits of an earlier reassembly)" % what)
+    if n == 0:
+        raise Broken("header writer has no path through getRawMessageHeader")
+    return n
